@@ -158,6 +158,16 @@ fn parse_number_fraction(
     Ok(trunc)
 }
 
+// the zero results keep the sign of the literal, as every other float does
+#[inline(always)]
+fn signed_zero(negative: bool) -> f64 {
+    if negative {
+        -0.0
+    } else {
+        0.0
+    }
+}
+
 #[inline(always)]
 pub fn parse_number(data: &[u8], index: &mut usize, negative: bool) -> Result<ParserNumber, Error> {
     let mut significant: u64 = 0;
@@ -171,7 +181,7 @@ pub fn parse_number(data: &[u8], index: &mut usize, negative: bool) -> Result<Pa
         if *index >= data.len() || !matches!(data[*index], b'.' | b'e' | b'E') {
             // view -0 as float number
             if negative {
-                return Ok(ParserNumber::Float(0.0));
+                return Ok(ParserNumber::Float(-0.0));
             }
             return Ok(ParserNumber::Unsigned(0));
         }
@@ -195,7 +205,7 @@ pub fn parse_number(data: &[u8], index: &mut usize, negative: bool) -> Result<Pa
                     while is_digit!(data, *index) {
                         *index += 1;
                     }
-                    return Ok(ParserNumber::Float(0.0));
+                    return Ok(ParserNumber::Float(signed_zero(negative)));
                 }
 
                 // we calculate the first digit here for two reasons:
@@ -203,7 +213,7 @@ pub fn parse_number(data: &[u8], index: &mut usize, negative: bool) -> Result<Pa
                 // 2. we only need parse at most 16 digits in parse_number_fraction
                 // and it is friendly for simd
                 if !is_digit!(data, *index) {
-                    return Ok(ParserNumber::Float(0.0));
+                    return Ok(ParserNumber::Float(signed_zero(negative)));
                 }
 
                 significant = digit!(data, *index);
@@ -236,7 +246,7 @@ pub fn parse_number(data: &[u8], index: &mut usize, negative: bool) -> Result<Pa
                 while is_digit!(data, *index) {
                     *index += 1;
                 }
-                return Ok(ParserNumber::Float(0.0));
+                return Ok(ParserNumber::Float(signed_zero(negative)));
             }
             _ => unreachable!("unreachable branch in parse_number_unchecked"),
         }
